@@ -395,7 +395,7 @@ def run_check(pid, tier, seconds=None, runs=None, workers=None, verif_seed=None)
                     else:
                         absorb(job, res[2], res[3])
                 ex = _make_pool(pid, workers)
-            if len(new_violations) >= 4:
+            if len(new_violations) >= 4 or len(agg['harness']) >= 10:
                 break
     finally:
         for fut in pending:
